@@ -609,6 +609,15 @@ impl<'a, T: 'a + IO> Interpreter<'a, T> {
         Ok(())
     }
 
+    // Index is valid if it is not negative and less than length, fraction is dropped
+    fn valid_list_index(index: f64, len: usize) -> Option<usize> {
+        if index >= 0.0 && (index as usize) < len {
+            Some(index as usize)
+        } else {
+            None
+        }
+    }
+
     fn find_var_env_index(&mut self, var_key: String, init_value: Option<parser::Expr>) -> i32 {
         // if var was found at env returns its scope index
         // if not found return any integer
@@ -856,12 +865,17 @@ impl<'a, T: 'a + IO> Interpreter<'a, T> {
         match (identifier, index) {
             (DataType::List(arr_i), DataType::Num(i)) => {
                 let arr = self.lists[arr_i].clone();
-                return Ok(arr[i as usize].clone());
+                match Self::valid_list_index(i, arr.len()) {
+                    Some(i) => return Ok(arr[i].clone()),
+                    None => return Err(RuntimeError(line, file_name, "List index out of range".to_string())),
+                }
             },
             (DataType::NamelessRecord(record_i), DataType::String(key)) => {
                 let nameless_record = self.nameless_records[record_i].clone();
-                let record_data = nameless_record.get(&*key).unwrap().clone();
-                return Ok(record_data);
+                match nameless_record.get(&*key) {
+                    Some(record_data) => return Ok(record_data.clone()),
+                    None => return Err(RuntimeError(line, file_name, format!("Key '{}' not found in record", key))),
+                }
             },
             (_, DataType::Num(_)) => {
                 return Err(RuntimeError(line, file_name, "Only list supports indexing with number".to_string()));
